@@ -135,20 +135,49 @@ func buildRegion(c c08Case) gts.Region {
 	return r
 }
 
+// segReverse: the strand of segment k.  A zero-length segment (a between-site) has no direction of its own;
+// it reads in the direction of the nearest segment of its region that has one ("in the direction of its
+// strand").  zeroForward=true is the convention of the code (a zero-length segment counts as forward).
+func segReverse(segs []gts.Segment, k int, zeroForward bool) bool {
+	if segs[k][0] != segs[k][1] {
+		return segs[k][1] < segs[k][0]
+	}
+	if zeroForward {
+		return false
+	}
+	for d := 1; d < len(segs); d++ {
+		for _, j := range []int{k - d, k + d} {
+			if j >= 0 && j < len(segs) && segs[j][0] != segs[j][1] {
+				return segs[j][1] < segs[j][0]
+			}
+		}
+	}
+	return false
+}
+
+// zeroEndTrigger: the modifier extends an end segment that has zero length and whose region reads on the reverse strand.
+func zeroEndTrigger(segs []gts.Segment, lo, hi, n int) bool {
+	first0 := segs[0][0] == segs[0][1] && lo < 0 && segReverse(segs, 0, false)
+	last0 := segs[len(segs)-1][0] == segs[len(segs)-1][1] && hi > n && segReverse(segs, len(segs)-1, false)
+	return first0 || last0
+}
+
 // virtual spliced axis: atom at coordinate c (may be <0 or >=n: outward extension of first/last segment)
-func axisAtom(segs []gts.Segment, all []ratom, c int) ratom {
+func axisAtom(segs []gts.Segment, all []ratom, c int) ratom { return axisAtomConv(segs, all, c, false) }
+
+func axisAtomConv(segs []gts.Segment, all []ratom, c int, zeroForward bool) ratom {
 	n := len(all)
 	switch {
 	case c < 0:
-		// extend the first non-empty... the statement says the first segment
+		// the statement says the first segment is extended outward
 		f := segs[0]
-		if f[0] <= f[1] {
+		if !segReverse(segs, 0, zeroForward) {
 			return ratom{f[0] + c, false}
 		}
 		return ratom{f[0] - 1 - c, true}
 	case c >= n:
 		l := segs[len(segs)-1]
-		if l[0] <= l[1] {
+		if !segReverse(segs, len(segs)-1, zeroForward) {
 			return ratom{l[1] + (c - n), false}
 		}
 		return ratom{l[1] - 1 - (c - n), true}
@@ -158,9 +187,13 @@ func axisAtom(segs []gts.Segment, all []ratom, c int) ratom {
 
 // boundary positions acceptable for spliced coordinate c (between atoms c-1 and c)
 func axisBoundaries(segs []gts.Segment, all []ratom, c int) map[int]bool {
+	return axisBoundariesConv(segs, all, c, false)
+}
+
+func axisBoundariesConv(segs []gts.Segment, all []ratom, c int, zeroForward bool) map[int]bool {
 	out := map[int]bool{}
-	left := axisAtom(segs, all, c-1)
-	right := axisAtom(segs, all, c)
+	left := axisAtomConv(segs, all, c-1, zeroForward)
+	right := axisAtomConv(segs, all, c, zeroForward)
 	if left.rev {
 		out[left.pos] = true
 	} else {
@@ -245,6 +278,19 @@ func c08Eval(c c08Case) (ok bool, sig, detail string) {
 			sigp += "-3plus"
 		}
 		if !reflect.DeepEqual(exp, got) && !(len(exp) == 0 && len(got) == 0) {
+			// known finding: a zero-length end segment of a complement-strand region is extended as if it were
+			// on the forward strand (a Segment{p,p} cannot carry a strand).  Trigger: the extended end segment has
+			// zero length and its region reads on the reverse strand; deviation: the result equals the model
+			// evaluated with the convention "zero-length = forward".
+			if zeroEndTrigger(segs, lo, hi, n) {
+				var dev []ratom
+				for x := lo; x < hi; x++ {
+					dev = append(dev, axisAtomConv(segs, all, x, true))
+				}
+				if reflect.DeepEqual(dev, got) {
+					return false, "zero-length-end-segment-strand", what + fmt.Sprintf(" covers %v, want spliced[%d:%d) = %v: the zero-length end segment was extended on the forward strand", got, lo, hi, exp)
+				}
+			}
 			return false, sigp, what + fmt.Sprintf(" covers %v, want spliced[%d:%d) = %v", got, lo, hi, exp)
 		}
 		if len(exp) == 0 {
@@ -254,6 +300,9 @@ func c08Eval(c c08Case) (ok bool, sig, detail string) {
 				// several zero-length pieces: use head only
 			}
 			if !acc[res.Head()] {
+				if zeroEndTrigger(segs, lo, hi, n) && axisBoundariesConv(segs, all, lo, true)[res.Head()] {
+					return false, "zero-length-end-segment-strand", what + fmt.Sprintf(" sits at %d, want one of %v (spliced offset %d): the zero-length end segment was extended on the forward strand", res.Head(), acc, lo)
+				}
 				return false, sigp + "-site", what + fmt.Sprintf(" sits at %d, want one of %v (spliced offset %d)", res.Head(), acc, lo)
 			}
 		}
@@ -300,6 +349,15 @@ func c08Eval(c c08Case) (ok bool, sig, detail string) {
 			cexp = append(cexp, axisAtom(csegs, call, x))
 		}
 		if got2 := regionAtoms(r2); !reflect.DeepEqual(cexp, got2) && !(len(cexp) == 0 && len(got2) == 0) {
+			if zeroEndTrigger(csegs, lo, hi, n) {
+				var dev []ratom
+				for x := lo; x < hi; x++ {
+					dev = append(dev, axisAtomConv(csegs, call, x, true))
+				}
+				if reflect.DeepEqual(dev, got2) {
+					return false, "zero-length-end-segment-strand", fmt.Sprintf("Resize(%v, %s) = %v covers %v, want %v: the zero-length end segment was extended on the forward strand", region.Complement(), mod, r2, got2, cexp)
+				}
+			}
 			return false, sigp + "-complement", fmt.Sprintf("Resize(%v, %s) = %v covers %v, want %v", region.Complement(), mod, r2, got2, cexp)
 		}
 		_ = mir
@@ -489,6 +547,50 @@ func init() {
 					r.Extra["many_segments_completed"] = maxMany
 				}
 			}
+			// regions with zero-length segments (between-sites inside a join) at their ends, on one strand
+			if complete {
+				type reg struct {
+					segs [][2]int
+					n    int
+				}
+				var regs []reg
+				for m := 2; m <= 3; m++ {
+					total := 1
+					for i := 0; i < m; i++ {
+						total *= 3
+					}
+					for li := 0; li < total; li++ {
+						x, pos, n := li, 30, 0
+						var segs [][2]int
+						zeros := 0
+						for k := 0; k < m; k++ {
+							ln := x % 3
+							x /= 3
+							segs = append(segs, [2]int{pos, pos + ln})
+							pos += ln + 1
+							n += ln
+							if ln == 0 {
+								zeros++
+							}
+						}
+						if zeros == 0 || zeros == m {
+							continue
+						}
+						regs = append(regs, reg{segs, n})
+					}
+				}
+				r.States.Add(int64(len(regs) * 2))
+				r.Extra["zero_length_segment_regions"] = len(regs) * 2
+				done := r.ParallelFor(len(regs), func(idx int) {
+					rg := regs[idx]
+					for _, comp := range []bool{false, true} {
+						for _, md := range c08Mods(rg.n) {
+							eval(c08Case{Kind: "resize", Segs: rg.segs, Comp: comp, Mod: md}, true, 30000+len(rg.segs)*100+len(md))
+						}
+					}
+				})
+				complete = complete && done
+			}
 			// modifier values
 			for p := -20; p <= 20; p++ {
 				eval(c08Case{Kind: "modifier-value", Mod: fmt.Sprintf("H:%d", p)}, true, 10)
@@ -521,7 +623,7 @@ func init() {
 			if complete {
 				complete = c08Locators(r)
 			}
-			r.Assumptions = []string{"segments of one region do not overlap and are separated by >=1 residue; 'inside' means 0<=lo<=hi<=len in spliced coordinates; a zero-length result is judged by the boundary position it sits on (either side of a segment junction accepted)"}
+			r.Assumptions = []string{"a zero-length segment (between-site) reads in the direction of the nearest segment of its region that has one", "segments of one region do not overlap and are separated by >=1 residue; 'inside' means 0<=lo<=hi<=len in spliced coordinates; a zero-length result is judged by the boundary position it sits on (either side of a segment junction accepted)"}
 			return complete
 		},
 		Replay: func(raw json.RawMessage) (bool, string, string) {
